@@ -380,37 +380,89 @@ fn gen(tier: &str, items_path: &str, out: &str) {
     let thorough = tier == "thorough";
 
     let mut rng = ScriptRng::seeded(0xC03);
-    let pp = PublicParameters::setup(1 << 11, &mut rng).expect("setup");
+    let pp = PublicParameters::setup(1 << 13, &mut rng).expect("setup");
 
     let mut verifiers: Vec<(Vec<u8>, String)> = Vec::new(); // bytes, family/label
     let mut proofs: Vec<Vec<u8>> = Vec::new();
     let mut fams: Vec<Fam> = Vec::new();
 
-    let fam_names: Vec<&str> =
-        if thorough { families::FAMILIES.to_vec() } else { vec!["tiny", "arith", "widgets", "ecc"] };
+    // "big" (domain 4096) sits on the far side of the 2^12 FFT switch
+    let fam_names: Vec<&str> = if thorough {
+        let mut v = families::FAMILIES.to_vec();
+        v.push("big");
+        v
+    } else {
+        vec!["tiny", "arith", "widgets", "ecc", "big"]
+    };
+    let items_all: Value =
+        serde_json::from_reader(BufReader::new(File::open(items_path).expect("items file")))
+            .expect("items json");
+    // prover-side transcript comparison ("Binding 2"), one record per honest proof
+    let mut ptrace: Vec<Value> = Vec::new();
 
     for name in &fam_names {
         let prog0 = families::family(name, 0).unwrap();
         let circ0 = ScriptedCircuit::new(prog0.clone());
         let label = format!("c03-{name}");
-        let (prover, verifier) = Compiler::compile_with_circuit(&pp, label.as_bytes(), &circ0)
-            .unwrap_or_else(|e| panic!("compile {name}: {e:?}"));
+        dusk_plonk::verif::transcript_trace_start();
+        let compiled = Compiler::compile_with_circuit(&pp, label.as_bytes(), &circ0);
+        let ops_compile = take_real_ops();
+        let (prover, verifier) = compiled.unwrap_or_else(|e| panic!("compile {name}: {e:?}"));
         let vid = verifiers.len();
-        verifiers.push((verifier.to_bytes(), name.to_string()));
+        let vbytes = verifier.to_bytes();
+        verifiers.push((vbytes.clone(), name.to_string()));
+        // compilation builds the legacy base transcript twice (prover, verifier)
+        let pv = parse_verifier(&vbytes).expect("own verifier bytes");
+        let seed_ops = legacy_seed_ops(&items_all, &pv).expect("seed items");
+        let twice: Vec<Op> = seed_ops.iter().chain(seed_ops.iter()).cloned().collect();
+        let d = diff_ops(&twice, &ops_compile);
+        ptrace.push(json!({"family": name, "phase": "compile", "ok": d.is_none(), "diff": d}));
         let mut f = Fam { name: name.to_string(), vid, npi: 0, proofs: vec![], pis: HashMap::new() };
         // honest proofs: V3 x (salt 0, stream 1), (salt 0, stream 2), (salt 1, stream 3); V2 x (salt 0)
         for (version, salt, stream) in [(3u64, 0u64, 1u64), (3, 0, 2), (3, 1, 3), (2, 0, 4)] {
             let circ = ScriptedCircuit::new(families::family(name, salt).unwrap());
             let mut r = ScriptRng::seeded(seed.wrapping_mul(1000) + stream);
-            let (proof, pis) = prover
-                .prove_with_version(&mut r, &circ, plonk_version(version))
-                .unwrap_or_else(|e| panic!("prove {name} v{version}: {e:?}"));
+            dusk_plonk::verif::transcript_trace_start();
+            let proved = prover.prove_with_version(&mut r, &circ, plonk_version(version));
+            let ops_prove = take_real_ops();
+            let (proof, pis) = proved.unwrap_or_else(|e| panic!("prove {name} v{version}: {e:?}"));
+            let pbytes = proof.to_bytes().to_vec();
+            // the prover's recorded transcript against Transcript!ProverItems
+            let rec = (|| -> Result<Value, String> {
+                let pp_ = parse_proof(&pbytes)?;
+                let items = items_for(&items_all, "prover", version, pis.len())?;
+                let (_, expected) = run_items(items, &pv, &pp_, &pis)?;
+                let observed: Vec<Op> = if version == 3 {
+                    ops_prove.clone()
+                } else {
+                    seed_ops.iter().chain(ops_prove.iter()).cloned().collect()
+                };
+                let d = diff_ops(&expected, &observed);
+                // prover and verifier squeeze the same challenges
+                let (_, _, ops_verify, _) = real_verdict_traced(&vbytes, &pbytes, &pis, version);
+                let chal = |ops: &[Op]| -> Vec<(Vec<u8>, Vec<u8>)> {
+                    ops.iter().filter(|o| o.kind == "challenge").map(|o| (o.label.clone(), o.data.clone())).collect()
+                };
+                let (cp, cv) = (chal(&ops_prove), chal(&ops_verify));
+                let same = cp.len() == 10 && cv.len() == 11 && cp[..] == cv[..10];
+                Ok(json!({"family": name, "phase": "prove", "version": version, "salt": salt,
+                          "ok": d.is_none() && same, "diff": d, "challenges_agree": same,
+                          "prover_challenges": cp.len(), "verifier_challenges": cv.len(),
+                          "ops": ops_prove.len()}))
+            })();
+            ptrace.push(rec.unwrap_or_else(|e| json!({"family": name, "phase": "prove", "ok": false, "error": e})));
             f.npi = pis.len();
             f.pis.insert(salt, pis);
             f.proofs.push((proofs.len(), version, salt, stream));
-            proofs.push(proof.to_bytes().to_vec());
+            proofs.push(pbytes);
         }
         fams.push(f);
+    }
+    {
+        let mut w = BufWriter::new(File::create(format!("{out}/prover_trace.ndjson")).unwrap());
+        for r in &ptrace {
+            writeln!(w, "{}", r).unwrap();
+        }
     }
     // a second verifier of the first family under another label (C04 flavour)
     {
@@ -483,6 +535,18 @@ fn gen(tier: &str, items_path: &str, out: &str) {
                 }
             }
         }
+        // (c') two-step forgery of both opening commitments: shift [W_z] by
+        //      c([x] - z w [1]), ask the verifier for the resulting u, then shift
+        //      [W_zw] by -(c/u)([x] - z [1]). The two shifts cancel in the pairing
+        //      equation iff u does not depend on [W_zw] (it must, so: rejected).
+        if fi < 2 || f.name == "big" {
+            for (pid, version) in [(pid0, 3u64), (pid_v2, 2u64)] {
+                match forge_two_step(&pp, &items_all, &verifiers[f.vid].0, &proofs[pid], &pis0, version) {
+                    Ok(hex) => push("forgery-two-step", &f.name, f.vid, json!(hex), &pis0, version),
+                    Err(e) => eprintln!("forgery-two-step {}: {e}", f.name),
+                }
+            }
+        }
         // (d) proofs shown to verifiers of other circuits
         for g in fams.iter() {
             if g.vid != f.vid {
@@ -549,7 +613,7 @@ fn gen(tier: &str, items_path: &str, out: &str) {
     }
 
     let stats = events(items_path, out);
-    println!("{}", json!({"triples": triples.len(), "verifiers": verifiers.len(),
+    println!("{}", json!({"triples": triples.len(), "verifiers": verifiers.len(), "prover_traces": ptrace.len(),
                           "proofs": proofs.len(), "events": stats["events"], "no_event": stats["no_event"]}));
 }
 
@@ -594,6 +658,44 @@ fn events(items_path: &str, dir: &str) -> Value {
         }
     }
     json!({"events": n_ev, "no_event": skipped})
+}
+
+/// Adversarial triple: see (c') in `gen`. Uses the SRS element [x]_1, the
+/// challenge z of the reference transcript and, as the adversary's oracle, the
+/// u the real verifier squeezes on the half-forged proof.
+fn forge_two_step(
+    pp: &PublicParameters,
+    items_all: &Value,
+    vbytes: &[u8],
+    pbytes: &[u8],
+    pis: &[BlsScalar],
+    version: u64,
+) -> Result<String, String> {
+    let v = parse_verifier(vbytes)?;
+    let p = parse_proof(pbytes)?;
+    let items = items_for(items_all, "verifier", version, pis.len())?;
+    let (ch, _) = run_items(items, &v, &p, pis)?;
+    let z = *ch.get("z").ok_or("no z")?;
+    let omega = dusk_plonk::verif::domain_params(v.vk_n as usize).map_err(|e| format!("{e:?}"))?.1;
+    let p0 = g1(&dusk_plonk::verif::srs_power(pp, 0).ok_or("srs[0]")?)?;
+    let p1 = g1(&dusk_plonk::verif::srs_power(pp, 1).ok_or("srs[1]")?)?;
+    let c = BlsScalar::from(7u64);
+    let w_z = p.points["proof.w_z_chall_comm"];
+    let w_zw = p.points["proof.w_z_chall_w_comm"];
+    let shift1 = (G1Projective::from(p1) - p0 * (z * omega)) * c;
+    let w_z2 = G1Affine::from(G1Projective::from(w_z) + shift1);
+    let mut b = pbytes.to_vec();
+    b[48 * 9..48 * 10].copy_from_slice(&w_z2.to_bytes());
+    let (_, _, ops, _) = real_verdict_traced(vbytes, &b, pis, version);
+    let u = ops.iter().rev().find(|o| o.kind == "challenge").ok_or("no challenge recorded")?;
+    let ub: [u8; 32] = u.data.clone().try_into().map_err(|_| "challenge bytes")?;
+    let u = <BlsScalar as Serializable<32>>::from_bytes(&ub).map_err(|e| format!("{e:?}"))?;
+    let uinv: Option<BlsScalar> = u.invert().into();
+    let d = -(c * uinv.ok_or("u = 0")?);
+    let shift2 = (G1Projective::from(p1) - p0 * z) * d;
+    let w_zw2 = G1Affine::from(G1Projective::from(w_zw) + shift2);
+    b[48 * 10..48 * 11].copy_from_slice(&w_zw2.to_bytes());
+    Ok(hex_bytes(&b))
 }
 
 /// Proof bytes of a triple's proof spec.
